@@ -163,7 +163,7 @@ theorem sendO_inv {F : Nat → Nat} {o : KcpO} (h : OwnInvF F o) (b : Bytes) : O
   simp only []
   split; · exact h.w
   split; · exact h.w
-  split; · exact h1.congr (fun id => by unfold held; simp only []; omega)
+  split; · exact h.w
   split; · exact h1.congr (fun id => by unfold held; simp only []; omega)
   split; · exact h1.getLost.congr (fun id => by unfold held; simp only []; omega)
   exact (mkSegsO_W _ _ _ _ _ _ h1).congr (fun id => by unfold held; simp only [cnt_append]; omega)
